@@ -386,6 +386,7 @@ class ClassObject(Object, Callable):
         # type: (EvalCtx, ClassScope) -> None
         self.ctx = ctx
         self.scope = scope
+        self._collecting = False
 
     @property
     def _cls_attrs(self):
@@ -401,9 +402,18 @@ class ClassObject(Object, Callable):
     @cached_property
     def _attrs(self):
         # type: () -> Attributes
-        attrs = {}
-        for b in reversed(self.bases):
-            attrs.update(b._attrs)
+        attrs = {}  # type: Attributes
+        if self._collecting:  # inheritance cycle
+            return attrs
+
+        self._collecting = True
+        try:
+            for b in reversed(self.bases):
+                # a base bound on several paths evaluates to a composite without a table of its own
+                attrs.update(getattr(b, '_attrs', {}))
+        finally:
+            self._collecting = False
+
         attrs.update(self._cls_attrs)
         return attrs
 
@@ -436,6 +446,7 @@ class InstanceValue(Object):
         # type: (EvalCtx, ClassObject) -> None
         self.ctx = ctx
         self.cls = cls
+        self._collecting = False
 
     @cached_property
     def _assigned(self):
@@ -443,10 +454,15 @@ class InstanceValue(Object):
         """Attributes assigned through self in methods of the class and of its bases"""
         attrs = {}  # type: Attributes
         tables = []
-        for b in reversed(self.cls.bases):
-            o = b.call(self.ctx)
-            if o:
-                tables.append(getattr(o, '_assigned', {}))
+        if self._collecting:  # inheritance cycle
+            return attrs
+
+        self._collecting = True
+        try:
+            tables = self._base_assignments()
+        finally:
+            self._collecting = False
+
         tables.append(self.cls.scope.top.assigns(self.ctx).get(self, {}))
         for table in tables:
             for name, value in iteritems(table):
@@ -458,6 +474,16 @@ class InstanceValue(Object):
                     value = merged
                 attrs[name] = value
         return attrs
+
+    def _base_assignments(self):
+        # type: () -> list[Attributes]
+        tables = []
+        for b in reversed(self.cls.bases):
+            call = getattr(b, 'call', None)
+            o = call and call(self.ctx)
+            if o:
+                tables.append(getattr(o, '_assigned', {}))
+        return tables
 
     @cached_property
     def _attrs(self):
